@@ -34,6 +34,8 @@ DEFAULT_PROFILE = {
   "side_effect_formula": 0,
   "ref_into_summary": 0.5, "remove_summary_widget": 0.5,
   "type_change_write": 2,
+  "c12_regroup": 0, "c12_empty_group": 0, "c12_add_to_groups": 0,     # summary-table edits (C12)
+  "c12_error_formula": 0, "c12_summary_any": 0, "c12_retype_groupby": 0, "c12_rename_groupby": 0,
   "unhashable_key": 1.5,
   "agg_unsorted": 1,
   "remove_readd": 2,
@@ -301,6 +303,7 @@ class Gen(object):
                                      "remove_record", "bulk_remove", "upsert", "temp_ids", "malformed",
                                      "ref_bulk_update", "ref_pair_update", "ref_both_sides",
                                      "add_dangling_id", "remove_referenced",
+                                     "c12_regroup", "c12_empty_group", "c12_add_to_groups",
                                      # these leave tables, columns and rows as `w` knows them
                                      "modify_type", "modify_formula", "label_change", "rename_choices"):
         break
@@ -822,6 +825,181 @@ class Gen(object):
     vc = self.rng.choice(w.visible_cols(tgt))
     f = "$%s.%s" % (c["colId"], vc["colId"]) if self.rng.random() < 0.8 else ""
     return ["SetDisplayFormula", t["tableId"], None, c["ref"], f]
+
+  # ------------------------------------------------------------ summary-table edits (C12)
+  def _c12_targets(self, w):
+    """[(source table, [group-by source column dicts])] for every summary table with group-by columns."""
+    out = []
+    for st in w.user_tables(summary=True):
+      src = [t for t in w.tables.values() if t["ref"] == st["summarySource"]]
+      if not src or not src[0]["rows"]:
+        continue
+      gcols = [w.cols_by_ref.get(c["summarySourceCol"]) for c in st["cols"] if c["summarySourceCol"]]
+      gcols = [c for c in gcols if c and not c["isFormula"]]
+      if gcols:
+        out.append((src[0], gcols, st))
+    return out
+
+  def _c12_value(self, w, t, col, data):
+    """A value for a group-by cell, drawn from a SMALL domain (so that groups merge, split and empty):
+    a value another row has, a fresh one, and for list columns duplicates / empty lists / alt text."""
+    rng = self.rng
+    base = col["type"].split(":")[0]
+    have = [v for v in data.columns.get(col["colId"], [])]
+    r = rng.random()
+    if have and r < 0.45:
+      v = rng.choice(have)
+      if isinstance(v, (tuple, list)):
+        return ["L"] + list(v)
+      if v is None or isinstance(v, (bool, int, float, str)):
+        return v
+    if base == "ChoiceList":
+      k = rng.choice([0, 0, 1, 1, 2, 2, 3])
+      if k == 0:
+        return rng.choice([None, ["L"], "", "junk", 7])
+      ch = [rng.choice(CHOICES[:3]) for _ in range(k)]          # duplicates on purpose
+      return ["L"] + ch
+    if base == "RefList":
+      tgt = col["type"].split(":", 1)[1]
+      rows = w.tables.get(tgt, {"rows": []})["rows"]
+      k = rng.choice([0, 0, 1, 1, 2, 3])
+      if not rows or k == 0:
+        return rng.choice([None, ["L"], 0, "junk"])
+      return ["L"] + [rng.choice(rows[:4]) for _ in range(k)]      # duplicates on purpose
+    if base == "Ref":
+      tgt = col["type"].split(":", 1)[1]
+      rows = w.tables.get(tgt, {"rows": []})["rows"]
+      return rng.choice((rows[:3] or [0]) + [0, 0, 99, "junk"])
+    if base == "Int":
+      return rng.choice([0, 1, 2, 2, 3, None, "", "junk", 1.0, True, 2.5])
+    if base == "Numeric":
+      return rng.choice([0, 1, 1.5, 1.5, 2, None, "", "junk", True])
+    if base == "Bool":
+      return rng.choice([True, False, 1, 0, None, "junk", "", 2])
+    if base in ("Text", "Choice"):
+      return rng.choice(["", "a", "a", "b", "c", None, 1, 1.0, "1", True])
+    if base in ("Date", "DateTime"):
+      return rng.choice([None, 86400, 86400.0, 86407, 172800, "junk", 0])
+    return rng.choice([None, 1, 1.0, True, "1", "t", 2.5, ""])
+
+  def g_c12_regroup(self, w):
+    """Change the group-by cells of one or a few source rows of a summary table."""
+    ts = self._c12_targets(w)
+    if not ts:
+      return None
+    rng = self.rng
+    t, gcols, _ = rng.choice(ts)
+    data = w.doc.engine.fetch_table(t["tableId"], formulas=False)
+    cols = rng.sample(gcols, rng.randint(1, len(gcols)))
+    if len(t["rows"]) >= 2 and rng.random() < 0.35:
+      rows = rng.sample(t["rows"], rng.randint(2, min(4, len(t["rows"]))))
+      return ["BulkUpdateRecord", t["tableId"], rows,
+              {c["colId"]: [self._c12_value(w, t, c, data) for _ in rows] for c in cols}]
+    return ["UpdateRecord", t["tableId"], rng.choice(t["rows"]),
+            {c["colId"]: self._c12_value(w, t, c, data) for c in cols}]
+
+  def g_c12_empty_group(self, w):
+    """Move or remove ALL source rows of one summary row, so that its group becomes empty."""
+    ts = self._c12_targets(w)
+    if not ts:
+      return None
+    rng = self.rng
+    t, gcols, st = rng.choice(ts)
+    sd = w.doc.engine.fetch_table(st["tableId"], formulas=True)
+    groups = [g for g in sd.columns.get("group", []) if isinstance(g, (list, tuple)) and 0 < len(g) <= 4]
+    if not groups:
+      return None
+    g = [r for r in rng.choice(groups) if isinstance(r, int)]
+    if not g:
+      return None
+    if rng.random() < 0.4:
+      return ["BulkRemoveRecord", t["tableId"], list(g)]
+    data = w.doc.engine.fetch_table(t["tableId"], formulas=False)
+    c = rng.choice(gcols)
+    v = self._c12_value(w, t, c, data)
+    return ["BulkUpdateRecord", t["tableId"], list(g), {c["colId"]: [v for _ in g]}]
+
+  def g_c12_add_to_groups(self, w):
+    """Add source rows whose group-by cells come from the small domain (existing and new groups)."""
+    ts = self._c12_targets(w)
+    if not ts:
+      return None
+    rng = self.rng
+    t, gcols, _ = rng.choice(ts)
+    data = w.doc.engine.fetch_table(t["tableId"], formulas=False)
+    k = rng.choice([1, 1, 2, 3])
+    vals = {c["colId"]: [self._c12_value(w, t, c, data) for _ in range(k)] for c in gcols}
+    for c in w.data_cols(t):
+      if c["colId"] not in vals and rng.random() < 0.5:
+        vals[c["colId"]] = [self.value_for(w, c) for _ in range(k)]
+    if k == 1:
+      return ["AddRecord", t["tableId"], None, {c: v[0] for c, v in vals.items()}]
+    return ["BulkAddRecord", t["tableId"], [None] * k, vals]
+
+  def g_c12_error_formula(self, w):
+    """A formula column that raises for some rows (division by a cell that may be 0 / None / alt text)."""
+    t = self._table(w)
+    if not t:
+      return None
+    nums = [c for c in w.data_cols(t) if c["type"] in ("Int", "Numeric")]
+    if not nums:
+      return None
+    a = self.rng.choice(nums)["colId"]
+    f = self.rng.choice(["10 // $%s" % a, "12 // ($%s - 1)" % a, "'k' + str(6 // $%s)" % a])
+    return ["AddColumn", t["tableId"], self.new_name(), {"type": "Any", "isFormula": True, "formula": f}]
+
+  def g_c12_summary_any(self, w):
+    """CreateViewSection grouped by any visible columns of the source, formula columns included."""
+    t = self._table(w)
+    if not t:
+      return None
+    cands = [c for c in w.visible_cols(t) if c["colId"] != "group"]
+    fc = [c for c in cands if c["isFormula"]]
+    if not fc:
+      return None
+    gb = [self.rng.choice(fc)["ref"]]
+    if len(cands) > 1 and self.rng.random() < 0.4:
+      o = self.rng.choice(cands)["ref"]
+      if o not in gb:
+        gb.append(o)
+    return ["CreateViewSection", t["ref"], 0, "record", gb, None]
+
+  def g_c12_retype_groupby(self, w):
+    """Change the type of a group-by SOURCE column (list <-> scalar conversions in particular)."""
+    ts = self._c12_targets(w)
+    if not ts:
+      return None
+    rng = self.rng
+    t, gcols, _ = rng.choice(ts)
+    c = rng.choice(gcols)
+    base = c["type"].split(":")[0]
+    if c["reverseCol"]:
+      return None
+    if base in ("Choice", "Text"):
+      newt = rng.choice(["ChoiceList", "ChoiceList", "Text", "Choice", "Int", "Any"])
+    elif base == "ChoiceList":
+      newt = rng.choice(["Choice", "Text", "Choice", "Any"])
+    elif base == "Ref":
+      newt = rng.choice(["RefList:" + c["type"].split(":", 1)[1], "Int", "Any"])
+    elif base == "RefList":
+      newt = rng.choice(["Ref:" + c["type"].split(":", 1)[1], "Text", "Any"])
+    else:
+      newt = rng.choice(["Text", "Int", "Numeric", "Bool", "Choice", "ChoiceList", "Date", "Any",
+                         "Ref:" + t["tableId"], "RefList:" + t["tableId"]])
+    if newt == c["type"]:
+      return None
+    if rng.random() < 0.5:
+      return ["ModifyColumn", t["tableId"], c["colId"], {"type": newt}]
+    return ["UpdateRecord", "_grist_Tables_column", c["ref"], {"type": newt}]
+
+  def g_c12_rename_groupby(self, w):
+    """Rename a group-by SOURCE column (the summary column and table must follow)."""
+    ts = self._c12_targets(w)
+    if not ts:
+      return None
+    t, gcols, _ = self.rng.choice(ts)
+    c = self.rng.choice(gcols)
+    return ["RenameColumn", t["tableId"], c["colId"], self.new_name()]
 
   def g_ref_into_summary(self, w):
     """A reference column pointing INTO a summary table, shown through a display helper column: when the
